@@ -75,7 +75,7 @@ pub fn run(seed: u64, thorough: bool, out_dir: &std::path::Path, scratch: &std::
         .map(|i| { let mut cf = CaseFile::new(out_dir, &format!("cases_{:02}", i), header); cf.group("mmr", "mcase", "check_mcase"); cf })
         .collect();
     let mut descs: Vec<BTreeMap<String, Vec<Value>>> = (0..shards).map(|_| BTreeMap::new()).collect();
-    let n_hist = if thorough { 400 } else { 40 };
+    let n_hist = hx_common::shard_share_usize(if thorough { 400 } else { 40 });
     for hi in 0..n_hist {
         let cfg = ChainCfg {
             window: *rng.pick(&[(1u64, 2u64), (2, 4), (2, 10)]),
